@@ -15,6 +15,9 @@ from nl.model import short
 from props.C07 import natural_loops
 
 RULES = {
+    'C20.f': 'the channel whose receiver is drained into the reply entries is created for the request being served: in the transport '
+             'loop that accepts HTTP requests the channel constructor lies inside the loop (a channel that outlives a request carries a '
+             'message queued after the last entry was collected — the end-of-request clean-up refusal — into the next request)',
     'C20.a': 'HTTP loop: exactly one push of a reply entry on every path of a non-blank command, none for a blank one',
     'C20.b': 'error xor queued message: every function that queues on the client channel and then returns Response::Error '
              'is compensated by the HTTP loop discarding queued messages on its error arms',
@@ -66,6 +69,11 @@ def path_counts(b, start, stops, counted, within=None):
 
 
 def run(ck, m):
+    _run(ck, m)
+    channel_rule(ck, m)
+
+
+def _run(ck, m):
     for k, v in RULES.items():
         ck.rule(k, v)
     P = m.prog
@@ -271,3 +279,46 @@ def run(ck, m):
     ck.ob('C20.d', short(ws[0].id) if ws else 'ws', 'one-dispatch-per-part', okw,
           'the WebSocket handler runs each part through the request entry exactly once' if okw else
           'WebSocket per-part closure: found %d' % len(ws), '')
+
+
+
+def channel_rule(ck, m):
+    P = m.prog
+    from props.C07 import natural_loops
+    hb = http_loop(m)
+    n = 0
+    for b in P.user_bodies():
+        if b.id.startswith(('nundb::client::', 'nundb::command_line::')):
+            continue
+        accepts = [bi for bi, t in b.calls() if callee_decl(t) == 'tiny_http::Server::recv']
+        uses = [bi for bi, t in b.calls() if callee(t) == hb.id]
+        if not accepts or not uses:
+            continue
+        loops = natural_loops(b)
+        for a in accepts:
+            inloops = [body for h, body in loops if a in body]
+            if not inloops:
+                continue
+            body = min(inloops, key=len)
+            n += 1
+            # channel constructors reachable in this body: direct calls in the loop, or none (created outside and captured)
+            ctors = [bi for bi, t in b.calls() if callee_decl(t).endswith('mpsc::channel') or 'new_empty_and_receiver' in callee(t)]
+            inside = [x for x in ctors if x in body]
+            # the receiver argument handed to the command loop
+            okc = False
+            why = 'no channel constructor in the transport loop: the receiver handed to the command loop is captured from outside'
+            for u in uses:
+                for arg in b.term(u)['args']:
+                    ty = b.locals[(arg.get('m') or arg.get('c') or {'l': 0})['l']] if (arg.get('m') or arg.get('c')) else ''
+                    if 'Receiver' not in ty:
+                        continue
+                    roots = origins(b, arg, stop_at_calls=True) | origins(b, arg)
+                    if any(r[0] == 'call' and r[1] in inside for r in roots):
+                        okc = True
+                        why = 'the reply channel is created inside the loop that serves one request'
+                    elif any(r[0] in ('capture', 'param') for r in roots):
+                        why = 'the receiver handed to the command loop comes from outside the request loop (captured by the worker closure)'
+            ck.ob('C20.f', short(b.id), 'reply-channel-per-request', okc, why if okc else
+                  why + ': the refusal queued by the end-of-request `unwatch-all` of a session without a selected database stays in the channel '
+                  'and becomes the first entry of the next request served by the same worker, shifting every later entry', b.loc(a))
+    ck.floor('C20.f', n, 1, 'HTTP accept loops')
